@@ -7,7 +7,6 @@ from collections.abc import Callable
 from pathlib import Path
 from typing import TYPE_CHECKING, Any, cast
 
-import tornado.escape
 import tornado.ioloop
 import tornado.web
 import tornado.websocket
@@ -171,7 +170,7 @@ class WebSocketHandler(tornado.websocket.WebSocketHandler):
         )
 
         try:
-            response = self.jsonrpc.handle_json(tornado.escape.native_str(message))
+            response = self.jsonrpc.handle_json(message)
             if response and self.write_message(response):
                 logger.debug(
                     "Sent WebSocket message to %s: %r",
@@ -256,7 +255,7 @@ class JsonRpcHandler(tornado.web.RequestHandler):
 
         try:
             self.set_extra_headers()
-            response = self.jsonrpc.handle_json(tornado.escape.native_str(data))
+            response = self.jsonrpc.handle_json(data)
             if response and self.write(response):
                 logger.debug(
                     "Sent RPC message to %s: %r",
